@@ -165,7 +165,7 @@ def ev(case, rec):
 
 def gen_types(tier, seed):
     for ell in ('grs80', 'intl24'):
-        for kind in cfg.INTYPES[1:]:
+        for kind in cfg.INTYPES[1:] + cfg.NUMFORMS:
             yield {'ell': ell, 'kind': kind}
 
 
@@ -183,10 +183,11 @@ def ev_types(case, rec):
                 rec.skip('input object could not be built (C08)')
                 continue
             f = [x.dec() for x in o]
-            st, r = rec.call(vincinv, o[0], o[1], o[2], o[3], E)
+            u = [cfg.unwrap(x) for x in o]
+            st, r = rec.call(vincinv, u[0], u[1], u[2], u[3], E)
             st2, r2 = rec.call(vincinv, f[0], f[1], f[2], f[3], E)
             # mixed form: first point as objects, second as floats
-            st3, r3 = rec.call(vincinv, o[0], o[1], f[2], f[3], E)
+            st3, r3 = rec.call(vincinv, u[0], u[1], f[2], f[3], E)
             rec.nontriv((case['ell'], k, p1, p2))
             if st != 'ok' or st2 != 'ok' or st3 != 'ok' or tuple(r) != tuple(r2) or tuple(r3) != tuple(r2):
                 rec.fail('angle-class arguments give a different inverse solution from their decimal-degree values',
